@@ -28,12 +28,12 @@ _ALL = {
     "C02": {"suites": ["r-pair", "r-server", "t-udp"], "assumptions": [HONEST, MISUSE, COUNTERS]},
     "C03": {"suites": ["r-pair", "r-server", "r-codec", "t-udp"], "assumptions": [HONEST, MISUSE, COUNTERS]},
     "C04": {"suites": N_ALL, "assumptions": [NOFORGE, "sequence numbers below 2^64 - 256"]},
-    "C05": {"suites": ["n-world", "n-codec"], "assumptions": [NOFORGE]},
+    "C05": {"suites": ["n-world", "n-codec", "t-udp"], "assumptions": [NOFORGE]},
     "C06": {"suites": ["r-hostile", "r-server", "r-codec"], "assumptions": [MISUSE, COUNTERS]},
     "C07": {"suites": N_ALL, "assumptions": [NOFORGE]},
     "C08": {"suites": ["r-pair", "r-hostile", "r-server"], "assumptions": [HONEST, COUNTERS]},
     "C09": {"suites": R_ALL, "assumptions": [HONEST, MISUSE]},
-    "C10": {"suites": ["n-world"], "assumptions": ["max_clients is not lowered at run time for the bound"]},
+    "C10": {"suites": ["n-world", "t-udp"], "assumptions": ["max_clients is not lowered at run time for the bound"]},
     "C11": {"suites": ["r-server", "r-hostile", "t-udp"], "assumptions": [MISUSE]},
     "C12": {"suites": ["r-server", "r-pair", "r-hostile", "t-udp"], "assumptions": [MISUSE]},
     "C13": {"suites": ["r-codec", "r-pair", "r-hostile", "r-server", "n-codec", "n-world"], "assumptions": [COUNTERS]},
